@@ -251,7 +251,7 @@ func tbC05(c *Ctx, env *TBEnv, nprogs int) {
 			if res.Final != "complete" {
 				r.violate(Violation{Kind: "property", Key: "C05:tierB-not-completed:" + res.Final,
 					What:  "after interruption and restart the real mrp did not complete the pipestance",
-					Input: input, Impl: res.Incs[len(res.Incs)-1].Output})
+					Input: input, Impl: res.Incs[len(res.Incs)-1].Output + "\n--- unfinished job objects ---\n" + res.Stuck})
 				continue
 			}
 			if !jsonEqual(res.TopOuts, ref.TopOuts) {
